@@ -15,6 +15,13 @@ CLAIMED = {
             "in-place helpers, fixpoint) and is evaluated by TLC on the projected state of the real object after "
             "every call, returning or raising, of TLC-enumerated inputs and of random histories under five label "
             "families."),
+    "C02": ("§4 C02", "DiIntegrity (12 clauses: tail<->out, head<->in, no dangling id, one attribute record each) is "
+            "an invariant of the exhaustive DiHypergraph model and is evaluated by TLC on the projected state of the "
+            "real object after every call of TLC-enumerated inputs and random histories."),
+    "C03": ("§4 C03", "Closed, NoDupSimplex, NoEmptySimplex, Integrity are invariants and RemoveExact, "
+            "MaxOrderRespected action properties of the SimplicialComplex model (3 nodes, all five bulk formats, "
+            "max_order, aliases); TLC evaluates them, and the logged has_simplex answers, on every implementation "
+            "step."),
     "C04": ("§4 C04", "UidFresh is an invariant and AddsPreserve an action property of the exhaustive models; both "
             "are evaluated by TLC on every logged implementation step (the id counter is peeked, not consumed)."),
     "C05": ("§4 C05", "Refinement: every implementation step must be one of the outcomes the specification's "
